@@ -2,9 +2,11 @@
    derived from one another share column storage and row-index storage.
    Level: heap-level model (Model/Heap.v, Model/HeapOps.v), tied to the code by the engine "share"
    (sharing structure after every step of random histories) and by re-digesting every earlier member
-   after every step in Go.  Statements only; the proofs are in Proofs/HeapProofs.v, HeapOpsProofs.v. *)
+   after every step in Go.  Statements only; the proofs are in Proofs/HeapProofs.v, HeapOpsProofs.v,
+   HeapAggregate.v (Aggregate, all operations, negative examples) and HeapRefine.v (refinement to L0). *)
 From QF Require Import Base.Prelude Model.Heap Model.HeapOps Model.Conc
-     Proofs.HeapProofs Proofs.HeapOpsProofs Proofs.ConcProofs.
+     Proofs.HeapProofs Proofs.HeapOpsProofs Proofs.ConcProofs Proofs.HeapAggregate Proofs.HeapRefine.
+From QF Require Model.Frame Model.Ops Model.Filter Model.Sort.
 
 (* 1. Soundness of the instrumentation: a run accepted by run_tr (writes only to locations the program
       allocated itself; reads only pre-existing or own locations) is the ordinary run and leaves every
@@ -55,8 +57,9 @@ Proof.
 Qed.
 Print Assumptions C01_history_partial.
 
-(* The full statement (every operation of the quantifier, including Grouper.Aggregate whose L1 program
-   exists and is exercised by the engine, but whose safety proof is not finished). *)
+(* The full statement: every operation of the quantifier, including Grouper.Aggregate (key-column
+   Subset, per-group aggregation with the reusable buffer of subsetWithBuf, result frame construction).
+   Proved below as C01_full. *)
 Definition C01_full_statement : Prop :=
   forall env h t st fam tobs,
     hist_inv t st fam -> t + length h <= tobs ->
@@ -64,6 +67,356 @@ Definition C01_full_statement : Prop :=
       nth_error (history_states env h t st fam) j = Some (sj, fj) ->
       nth_error (history_states env h t st fam) k = Some (sk, fk) ->
       forall m, In m fj -> observe env tobs sk m = observe env tobs sj m.
+
+(* 4. (wave 2) Aggregate is safe, hence EVERY operation of the quantifier is; the full statement. *)
+Theorem C01_aggregate_safe aggs : lop_safe (LAggregate aggs).
+Proof. exact (safe_aggregate aggs). Qed.
+Print Assumptions C01_aggregate_safe.
+
+Theorem C01_all_ops_safe op : lop_safe op.
+Proof. exact (lop_all_safe op). Qed.
+Print Assumptions C01_all_ops_safe.
+
+Theorem C01_op_solo_safe_all env op recv other t n st :
+  closed_store st -> store_fresh t n st ->
+  mem_ok (in_dom st) recv [] -> mem_ok (in_dom st) other [] ->
+  run_tr env t (lop_prog op recv other) n st <> None.
+Proof. exact (op_solo_safe_all env op recv other t n st). Qed.
+Print Assumptions C01_op_solo_safe_all.
+
+Theorem C01_full : C01_full_statement.
+Proof. exact history_persistent_all. Qed.
+Print Assumptions C01_full.
+
+(* a grouper (made by GroupBy() on the example frame, so that its group shares the frame's index)
+   satisfying the premises of C01_op_solo_safe_all for Aggregate *)
+Example C01_aggregate_premises_hold :
+  closed_store AggExamples.st_g0 /\ store_fresh 2 0 AggExamples.st_g0 /\
+  mem_ok (in_dom AggExamples.st_g0) (MemG AggExamples.g0) [].
+Proof. exact AggExamples.aggregate_premises. Qed.
+
+(* 5. (wave 2) Negative examples as theorems.  A setColumn that does not copy the header slice is
+      rejected by the instrumented run on EVERY store in which the receiver's header slice has spare
+      capacity (new column: append in place) or the column exists (overwrite in place). *)
+Theorem C01_set_column_nocopy_append_rejected env t n st name ty parts qf :
+  s_len (q_cols qf) < s_cap (q_cols qf) ->
+  fst (fst (run env t (by_name qf name) n st)) = None ->
+  run_tr env t (set_column_nocopy true name ty parts qf) n st = None.
+Proof. exact (set_column_nocopy_append_rejected env t n st name ty parts qf). Qed.
+Print Assumptions C01_set_column_nocopy_append_rejected.
+
+Theorem C01_set_column_nocopy_overwrite_rejected env t n st name ty parts qf c :
+  fst (fst (run env t (by_name qf name) n st)) = Some c ->
+  c_pos c < s_len (q_cols qf) ->
+  run_tr env t (set_column_nocopy true name ty parts qf) n st = None.
+Proof. exact (set_column_nocopy_overwrite_rejected env t n st name ty parts qf c). Qed.
+Print Assumptions C01_set_column_nocopy_overwrite_rejected.
+
+Example C01_nocopy_premises_hold :
+  s_len (q_cols AggExamples.qf1) < s_cap (q_cols AggExamples.qf1) /\
+  fst (fst (run HeapExamples.env0 1 (by_name AggExamples.qf1 AggExamples.nB) 0 AggExamples.st1)) = None /\
+  (exists r, run_tr HeapExamples.env0 1 (set_column true AggExamples.nB 0 [mkSlice (0, 3) 0 4 4] AggExamples.qf1) 0 AggExamples.st1 = Some r).
+Proof. exact AggExamples.nocopy_premises. Qed.
+Example C01_nocopy_overwrite_premises_hold :
+  fst (fst (run HeapExamples.env0 1 (by_name AggExamples.qf1 HeapExamples.nA) 0 AggExamples.st1)) = Some HeapExamples.cA /\
+  c_pos HeapExamples.cA < s_len (q_cols AggExamples.qf1) /\
+  (exists r, run_tr HeapExamples.env0 1 (set_column true HeapExamples.nA 0 [mkSlice (0, 3) 0 4 4] AggExamples.qf1) 0 AggExamples.st1 = Some r).
+Proof. exact AggExamples.nocopy_overwrite_premises. Qed.
+(* the damage: with the wrong setColumn, deriving a second frame from the receiver changes the column
+   names the first derived frame shows; with the real one it does not *)
+Example C01_nocopy_damage :
+  AggExamples.bad_pair = ([HeapExamples.nA; AggExamples.nB], [HeapExamples.nA; AggExamples.nC]) /\
+  AggExamples.good_pair = ([HeapExamples.nA; AggExamples.nB], [HeapExamples.nA; AggExamples.nB]).
+Proof. exact AggExamples.nocopy_damage. Qed.
+
+(* An Aggregate that sorts the group's index in place is rejected when the group index is shared with
+   the receiver (GroupBy with no columns); the real Aggregate is accepted; without the instrumentation
+   the wrong program reorders the receiver's rows. *)
+Example C01_group_shares_index :
+  fst (fst (run HeapExamples.env0 9 (read_slices (g_indices AggExamples.g0)) 0 AggExamples.st_g0)) = [q_idx HeapExamples.qf0].
+Proof. exact AggExamples.group_shares_index. Qed.
+Example C01_wrong_aggregate_rejected :
+  run_tr HeapExamples.env0 2 (op_aggregate_sorting AggExamples.less_ix insertion_script AggExamples.aggs0 AggExamples.g0) 0 AggExamples.st_g0 = None /\
+  (exists r, run_tr HeapExamples.env0 2 (op_aggregate AggExamples.aggs0 AggExamples.g0) 0 AggExamples.st_g0 = Some r) /\
+  observe HeapExamples.env0 100 (snd (run HeapExamples.env0 2 (op_aggregate_sorting AggExamples.less_ix insertion_script AggExamples.aggs0 AggExamples.g0) 0 AggExamples.st_g0)) (MemF HeapExamples.qf0)
+    <> observe HeapExamples.env0 100 AggExamples.st_g0 (MemF HeapExamples.qf0) /\
+  observe HeapExamples.env0 100 (snd (run HeapExamples.env0 2 (op_aggregate AggExamples.aggs0 AggExamples.g0) 0 AggExamples.st_g0)) (MemF HeapExamples.qf0)
+    = observe HeapExamples.env0 100 AggExamples.st_g0 (MemF HeapExamples.qf0).
+Proof. exact AggExamples.wrong_aggregate_rejected. Qed.
+Print Assumptions C01_wrong_aggregate_rejected.
+
+(* 6. (wave 2) REFINEMENT of the heap-level programs to the L0 model (Model/Frame.v, Ops.v, Filter.v, Sort.v).
+      abs1 dec st qf reads a frame reference in a store as an L0 frame (header slice -> columns in order,
+      index slice -> row index; [dec] decodes the storage arrays of a column - the theorems hold for EVERY
+      decoder, dec_std is the one of the encoding wrap_result uses).  ref_ok: the slices lie inside their
+      arrays and the by-name map is the L0 reading "last column with that name, at that position".
+      keeps st st': every location of st has the same content in st' (what C01_run_tr_sound gives).
+      Each theorem: from a well-formed reference whose abstraction is f, the heap program returns a
+      well-formed reference whose abstraction is the L0 operation applied to f (so every L0 theorem about
+      Ops.slice / Filter.index_filter / Ops.set_column / Ops.copy / Ops.select / Ops.drop / or_merge /
+      not_merge is a theorem about what the heap program returns), and the old store is kept. *)
+Theorem C01_abs1_stable dec st st' qf :
+  keeps st st' -> ref_ok dec st qf -> ref_ok dec st' qf /\ abs1 dec st' qf = abs1 dec st qf.
+Proof. exact (fun Hk Ho => conj (ref_ok_keeps dec st st' qf Hk Ho) (abs1_keeps dec st st' qf Hk Ho)). Qed.
+Print Assumptions C01_abs1_stable.
+
+(* ref_ok has an executable, decoder-independent sufficient condition (Model/HeapOps.v ref_ok_b: slices
+   inside their arrays, distinct map keys, map entry = last header column with the name and pos = its
+   position), so that the premise can be evaluated on every member of a replayed history. *)
+Theorem C01_ref_ok_b_sound dec st qf : ref_ok_b st qf = true -> ref_ok dec st qf.
+Proof. exact (ref_ok_b_sound dec st qf). Qed.
+Print Assumptions C01_ref_ok_b_sound.
+Example C01_ref_ok_b_holds :
+  ref_ok_b HeapExamples.st0 HeapExamples.qf0 = true /\
+  match nth_error HeapExamples.states 7 with
+  | Some (st, fam) => forallb (fun m => match m with MemF q => ref_ok_b st q | MemG _ => true end) fam
+  | None => false
+  end = true.
+Proof. exact (conj RefineExamples.ref_ok_b_example RefineExamples.ref_ok_b_history). Qed.
+
+Theorem C01_refines_slice dec st qf f a b :
+  ref_ok dec st qf -> abs1 dec st qf = Some f ->
+  exists qf', op_slice a b qf = Ok qf' /\ ref_ok dec st qf' /\ abs1 dec st qf' = Some (Ops.slice f a b).
+Proof. exact (refines_slice dec st qf f a b). Qed.
+Print Assumptions C01_refines_slice.
+
+(* Sort: the index is copied and the copy permuted by the sorter script; read at L0 the new index is the
+   same script over Sort.less / Sort.swap (script_run).  lt is any L0 reading of Sorter.Less that agrees with
+   [less] on the cells of the sort columns; the index entries are non-negative (uint32 in Go). *)
+Theorem C01_refines_sort env dec t n st qf f names less script lt cols :
+  ref_ok dec st qf -> abs1 dec st qf = Some f -> store_fresh t n st ->
+  q_err qf = false -> names <> [] ->
+  fst (fst (run env t (lookup_cols (q_map qf) names) n st)) = Ok cols ->
+  nonneg (seg_of st (q_idx qf)) ->
+  (forall a b ca cb, cells_val st cols (Z.of_nat a) = Ok ca -> cells_val st cols (Z.of_nat b) = Ok cb ->
+                     less (Z.of_nat a) (Z.of_nat b) ca cb = lt a b) ->
+  forall qf' n' st', run env t (op_sort names less script qf) n st = (Ok qf', n', st') ->
+    keeps st st' /\ store_fresh t n' st' /\ ref_ok dec st' qf' /\
+    exists ids', script_run lt (script (length (Frame.ix f))) (Frame.ix f) = Ok ids' /\
+                 abs1 dec st' qf' = Some (Frame.with_ix f ids').
+Proof. exact (refines_sort env dec t n st qf f names less script lt cols). Qed.
+Print Assumptions C01_refines_sort.
+
+(* ... conversely a heap-level Sort that panics does so only because the SCRIPT leaves the index (then its
+   L0 reading panics too) - never because of the copy or of Less - when the rows of the index are rows
+   of the sort columns; Fail is impossible. *)
+Theorem C01_refines_sort_panic env dec t n st qf f names less script lt cols :
+  ref_ok dec st qf -> abs1 dec st qf = Some f -> store_fresh t n st ->
+  q_err qf = false -> names <> [] ->
+  fst (fst (run env t (lookup_cols (q_map qf) names) n st)) = Ok cols ->
+  nonneg (seg_of st (q_idx qf)) ->
+  Forall (fun v => exists c, cells_val st cols (as_z v) = Ok c) (seg_of st (q_idx qf)) ->
+  (forall a b ca cb, cells_val st cols (Z.of_nat a) = Ok ca -> cells_val st cols (Z.of_nat b) = Ok cb ->
+                     less (Z.of_nat a) (Z.of_nat b) ca cb = lt a b) ->
+  forall res n' st', run env t (op_sort names less script qf) n st = (res, n', st') ->
+    match res with
+    | Ok _ => True
+    | Panic => script_run lt (script (length (Frame.ix f))) (Frame.ix f) = Panic
+    | Fail => False
+    end.
+Proof. exact (refines_sort_panic env dec t n st qf f names less script lt cols). Qed.
+Print Assumptions C01_refines_sort_panic.
+
+(* the script the share engine replays, read at L0, IS insertionSort of Model/Sort.v (internal/sort/sorter.go) *)
+Theorem C01_insertion_script_l0 lt n s : script_run lt (insertion_script n) s = Sort.insertion_sort lt 0 n s.
+Proof. exact (insertion_script_l0 lt n s). Qed.
+Print Assumptions C01_insertion_script_l0.
+
+(* Filter, result construction: ix.Filter(bIx) is Filter.index_filter of the abstractions (panic for panic) *)
+Theorem C01_refines_index_filter env t n st ix b :
+  store_fresh t n st -> in_bounds st ix -> in_bounds st b ->
+  exists res n' st',
+    run env t (index_filter ix b) n st = (res, n', st') /\
+    keeps st st' /\ store_fresh t n' st' /\
+    match res with
+    | Ok r => Filter.index_filter (abs_ix st ix) (map as_b (seg_of st b)) = Ok (abs_ix st' r) /\ in_bounds st' r
+    | Panic => Filter.index_filter (abs_ix st ix) (map as_b (seg_of st b)) = Panic
+    | Fail => False
+    end.
+Proof. exact (refines_index_filter env t n st ix b). Qed.
+Print Assumptions C01_refines_index_filter.
+
+Theorem C01_refines_filter_index env dec t n st qf f b :
+  ref_ok dec st qf -> abs1 dec st qf = Some f -> store_fresh t n st -> in_bounds st b ->
+  exists res n' st',
+    run env t (let? ix := index_filter (q_idx qf) b in Ret (Ok (with_index qf ix))) n st = (res, n', st') /\
+    keeps st st' /\ store_fresh t n' st' /\
+    match res with
+    | Ok qf' => ref_ok dec st' qf' /\
+                exists i, Filter.index_filter (Frame.ix f) (map as_b (seg_of st b)) = Ok i /\
+                          abs1 dec st' qf' = Some (Frame.with_ix f i)
+    | Panic => Filter.index_filter (Frame.ix f) (map as_b (seg_of st b)) = Panic
+    | Fail => False
+    end.
+Proof. exact (refines_filter_index env dec t n st qf f b). Qed.
+Print Assumptions C01_refines_filter_index.
+
+(* ... and the index merges of Or and Not clauses *)
+Theorem C01_refines_or_frames env dec t n st orig l rhs fo fl fr :
+  ref_ok dec st orig -> ref_ok dec st l -> ref_ok dec st rhs ->
+  abs1 dec st orig = Some fo -> abs1 dec st l = Some fl -> abs1 dec st rhs = Some fr ->
+  nonneg (seg_of st (q_idx orig)) -> nonneg (seg_of st (q_idx l)) -> nonneg (seg_of st (q_idx rhs)) ->
+  store_fresh t n st ->
+  exists qf' n' st',
+    run env t (or_frames orig (Some l) rhs) n st = (Ok qf', n', st') /\
+    keeps st st' /\ store_fresh t n' st' /\ ref_ok dec st' qf' /\
+    abs1 dec st' qf' = Some (Filter.or_frames fo (Some fl) fr).
+Proof. exact (refines_or_frames env dec t n st orig l rhs fo fl fr). Qed.
+Print Assumptions C01_refines_or_frames.
+
+Theorem C01_refines_not_index env dec t n st qf nq f fn :
+  ref_ok dec st qf -> ref_ok dec st nq ->
+  abs1 dec st qf = Some f -> abs1 dec st nq = Some fn ->
+  nonneg (seg_of st (q_idx qf)) -> nonneg (seg_of st (q_idx nq)) ->
+  store_fresh t n st ->
+  exists qf' n' st',
+    run env t (not_index qf nq) n st = (Ok qf', n', st') /\
+    keeps st st' /\ store_fresh t n' st' /\ ref_ok dec st' qf' /\
+    abs1 dec st' qf' = Some (Frame.with_ix f (Filter.not_merge (Frame.ix f) (Frame.ix fn))).
+Proof. exact (refines_not_index env dec t n st qf nq f fn). Qed.
+Print Assumptions C01_refines_not_index.
+
+(* setColumn (copy of header slice and map, then the write): Ops.set_column, never a panic *)
+Theorem C01_refines_set_column env dec t n st qf f name_ok name ty parts d :
+  ref_ok dec st qf -> abs1 dec st qf = Some f -> store_fresh t n st ->
+  Forall (in_bounds st) parts -> dec ty (map (seg_of st) parts) = Some d ->
+  name_ok = Ops.check_name name ->
+  exists qf' n' st',
+    run env t (set_column name_ok name ty parts qf) n st = (Ok qf', n', st') /\
+    keeps st st' /\ store_fresh t n' st' /\ ref_ok dec st' qf' /\
+    abs1 dec st' qf' = Some (Ops.set_column f name d).
+Proof. exact (refines_set_column env dec t n st qf f name_ok name ty parts d). Qed.
+Print Assumptions C01_refines_set_column.
+
+Theorem C01_refines_copy env dec t n st qf f name_ok dst src :
+  ref_ok dec st qf -> abs1 dec st qf = Some f -> store_fresh t n st ->
+  name_ok = Ops.check_name dst ->
+  exists qf' n' st',
+    run env t (op_copy name_ok dst src qf) n st = (Ok qf', n', st') /\
+    keeps st st' /\ store_fresh t n' st' /\ ref_ok dec st' qf' /\
+    abs1 dec st' qf' = Some (Ops.copy f dst src).
+Proof. exact (refines_copy env dec t n st qf f name_ok dst src). Qed.
+Print Assumptions C01_refines_copy.
+
+Theorem C01_refines_select env dec t n st qf f names :
+  ref_ok dec st qf -> abs1 dec st qf = Some f -> store_fresh t n st ->
+  exists qf' n' st',
+    run env t (op_select names qf) n st = (Ok qf', n', st') /\
+    keeps st st' /\ store_fresh t n' st' /\ ref_ok dec st' qf' /\
+    abs1 dec st' qf' = Some (Ops.select f names).
+Proof. exact (refines_select env dec t n st qf f names). Qed.
+Print Assumptions C01_refines_select.
+
+Theorem C01_refines_drop env dec t n st qf f names :
+  ref_ok dec st qf -> abs1 dec st qf = Some f -> store_fresh t n st ->
+  exists qf' n' st',
+    run env t (op_drop names qf) n st = (Ok qf', n', st') /\
+    keeps st st' /\ store_fresh t n' st' /\ ref_ok dec st' qf' /\
+    abs1 dec st' qf' = Some (Ops.drop f names).
+Proof. exact (refines_drop env dec t n st qf f names). Qed.
+Print Assumptions C01_refines_drop.
+
+(* An operation that WRITES column data, WithRowNums (apply0 with a counter): fresh array of the physical
+   length, zero everywhere, the k-th index entry's row := k, then setColumn = Ops.with_row_nums (panic
+   for panic: an index entry beyond the physical length).  The decoder must read an int column as its
+   array and give columns the length of their first storage array; dec_std does. *)
+Theorem C01_refines_with_row_nums env dec t n st qf f name_ok name :
+  (forall arr, dec ty_int [arr] = Some (Frame.ICol (map as_z arr))) ->
+  (forall ty parts d, dec ty parts = Some d -> Frame.col_len d = length (hd [] parts)) ->
+  ref_ok dec st qf -> abs1 dec st qf = Some f -> store_fresh t n st ->
+  name_ok = Ops.check_name name ->
+  exists res n' st',
+    run env t (op_with_row_nums name_ok name qf) n st = (res, n', st') /\
+    keeps st st' /\ store_fresh t n' st' /\
+    match res with
+    | Ok qf' => ref_ok dec st' qf' /\
+                exists f', Ops.with_row_nums f name = Ok f' /\ abs1 dec st' qf' = Some f'
+    | Panic => Ops.with_row_nums f name = Panic
+    | Fail => False
+    end.
+Proof. exact (fun Hi Hl => refines_with_row_nums env dec Hi Hl t n st qf f name_ok name). Qed.
+Print Assumptions C01_refines_with_row_nums.
+Example C01_dec_std_ok :
+  (forall arr, dec_std ty_int [arr] = Some (Frame.ICol (map as_z arr))) /\
+  (forall ty parts d, dec_std ty parts = Some d -> Frame.col_len d = length (hd [] parts)).
+Proof. exact (conj dec_std_int dec_std_len). Qed.
+Example C01_refine_row_nums_example :
+  let '(r, _, st') := run HeapExamples.env0 1 (op_with_row_nums true [66%N] HeapExamples.qf0) 0 HeapExamples.st0 in
+  match r with Ok q => option_map Ok (abs1 dec_std st' q) | _ => None end = Some (Ops.with_row_nums RefineExamples.f0 [66%N]).
+Proof. exact RefineExamples.row_nums_example. Qed.
+
+(* The single-operation theorems compose: any finite chain of Slice / Select / Drop / Copy, each applied to
+   the result of the previous one, computes at the heap level what the chain of L0 operations computes,
+   and the initial frame still reads as before in the final store. *)
+Theorem C01_refines_pipeline env dec t rs n st q f :
+  ref_ok dec st q -> abs1 dec st q = Some f -> store_fresh t n st ->
+  exists q' n' st',
+    run env t (for_eachO rs rop_prog q) n st = (Ok q', n', st') /\
+    keeps st st' /\ store_fresh t n' st' /\ ref_ok dec st' q' /\
+    abs1 dec st' q' = Some (fold_left rop_l0 rs f) /\
+    ref_ok dec st' q /\ abs1 dec st' q = Some f.
+Proof. exact (refines_pipeline env dec t rs n st q f). Qed.
+Print Assumptions C01_refines_pipeline.
+
+(* One operation, directly on [run]: whatever the operation of the quantifier (incl. Aggregate), receiver
+   and argument, every well-formed frame reference (receiver, argument, sibling, ancestor ...) reads as
+   the same L0 frame after it. *)
+Theorem C01_op_abs_stable env dec op recv other t n st q :
+  closed_store st -> store_fresh t n st ->
+  mem_ok (in_dom st) recv [] -> mem_ok (in_dom st) other [] ->
+  ref_ok dec st q ->
+  let st' := snd (run env t (lop_prog op recv other) n st) in
+  ref_ok dec st' q /\ abs1 dec st' q = abs1 dec st q.
+Proof. exact (op_abs_stable env dec op recv other t n st q). Qed.
+Print Assumptions C01_op_abs_stable.
+
+(* 7. (wave 2) Persistence AT L0: along every history of ANY operations of the quantifier, every later
+      store keeps every earlier store, the family only grows, and every well-formed frame reference reads
+      as the same L0 frame (same names, order, types, every cell, index, Err) in every later state.
+      No per-operation premise: all operations are safe (C01_all_ops_safe). *)
+Theorem C01_history_abs env dec h t st fam :
+  hist_inv t st fam ->
+  forall j k sj fj sk fk, j <= k ->
+    nth_error (history_states env h t st fam) j = Some (sj, fj) ->
+    nth_error (history_states env h t st fam) k = Some (sk, fk) ->
+    keeps sj sk /\ incl fj fk /\
+    forall q, ref_ok dec sj q -> ref_ok dec sk q /\ abs1 dec sk q = abs1 dec sj q.
+Proof. exact (history_abs_persistent env dec h t st fam). Qed.
+Print Assumptions C01_history_abs.
+
+(* the premises hold for the example frame (decoder dec_std); Sort's premises too; both sides computed *)
+Example C01_refine_premises_hold :
+  ref_ok dec_std HeapExamples.st0 HeapExamples.qf0 /\
+  abs1 dec_std HeapExamples.st0 HeapExamples.qf0 = Some RefineExamples.f0 /\
+  store_fresh 1 0 HeapExamples.st0.
+Proof. exact (conj RefineExamples.ref_ok_example (conj RefineExamples.abs1_example RefineExamples.fresh_example)). Qed.
+Example C01_refine_sort_premises_hold :
+  q_err HeapExamples.qf0 = false /\ [HeapExamples.nA] <> [] /\
+  fst (fst (run HeapExamples.env0 1 (lookup_cols (q_map HeapExamples.qf0) [HeapExamples.nA]) 0 HeapExamples.st0)) = Ok [HeapExamples.cA] /\
+  nonneg (seg_of HeapExamples.st0 (q_idx HeapExamples.qf0)) /\
+  (forall a b ca cb, cells_val HeapExamples.st0 [HeapExamples.cA] (Z.of_nat a) = Ok ca ->
+                     cells_val HeapExamples.st0 [HeapExamples.cA] (Z.of_nat b) = Ok cb ->
+                     HeapExamples.lessA (Z.of_nat a) (Z.of_nat b) ca cb = RefineExamples.ltA a b).
+Proof. exact RefineExamples.sort_premises. Qed.
+Example C01_refine_sort_rows_hold :
+  Forall (fun v => exists c, cells_val HeapExamples.st0 [HeapExamples.cA] (as_z v) = Ok c)
+         (seg_of HeapExamples.st0 (q_idx HeapExamples.qf0)).
+Proof. exact RefineExamples.sort_rows. Qed.
+Example C01_refine_sort_example :
+  exists qf' n' st', run HeapExamples.env0 1 (op_sort [HeapExamples.nA] HeapExamples.lessA insertion_script HeapExamples.qf0) 0 HeapExamples.st0 = (Ok qf', n', st') /\
+    abs1 dec_std st' qf' = Some (Frame.with_ix RefineExamples.f0 [2; 1; 3; 0]) /\
+    script_run RefineExamples.ltA (insertion_script 4) (Frame.ix RefineExamples.f0) = Ok [2; 1; 3; 0] /\
+    Sort.sort_ids RefineExamples.ltA (Frame.ix RefineExamples.f0) = Ok [2; 1; 3; 0].
+Proof. exact RefineExamples.sort_result. Qed.
+Example C01_refine_select_example :
+  let '(r, _, st') := run HeapExamples.env0 1 (op_select [HeapExamples.nA; HeapExamples.nA] HeapExamples.qf0) 0 HeapExamples.st0 in
+  match r with Ok q => abs1 dec_std st' q | _ => None end = Some (Ops.select RefineExamples.f0 [HeapExamples.nA; HeapExamples.nA]).
+Proof. exact RefineExamples.select_example. Qed.
+Example C01_refine_set_column_example :
+  let '(r, _, st') := run HeapExamples.env0 1 (set_column true [66%N] ty_int [mkSlice (0, 3) 0 4 4] HeapExamples.qf0) 0 HeapExamples.st0 in
+  match r with Ok q => abs1 dec_std st' q | _ => None end
+  = Some (Ops.set_column RefineExamples.f0 [66%N] (Frame.ICol [30; 10; 5; 20]%Z)).
+Proof. exact RefineExamples.set_column_example. Qed.
 
 (* Non-vacuity: a store and frame satisfying the premises; a history (Slice with spare capacity, Sort
    the slice, Filter the parent, Apply on both, GroupBy, QFrames) evaluated with every member
